@@ -79,7 +79,7 @@ type WOpts struct {
 }
 
 var WireFeatures = []string{"bind", "bind-value-impl", "value", "ivalue", "struct", "struct-fields", "struct-value-consumer", "fieldsof", "fieldsof-value", "fieldsof-ptr",
-	"sets", "nested-sets", "inline-sets", "inline-sets-deep", "struct-unexported-field", "err", "args", "unused-arg", "multi-file", "ext", "bind-foreign-ctor", "bind-split-set", "multi-result"}
+	"sets", "nested-sets", "inline-sets", "inline-sets-deep", "struct-unexported-field", "ext-alias-suffix", "ext-name-differs-from-path", "err", "args", "unused-arg", "multi-file", "ext", "bind-foreign-ctor", "bind-split-set", "multi-result"}
 
 func WAllowAll(except ...string) map[string]bool {
 	m := map[string]bool{}
@@ -155,7 +155,19 @@ func (g *wgen) ptrTo(s TypeID) TypeID {
 func (g *wgen) extKey() string {
 	if len(g.c.Exts) == 0 {
 		if g.o.ExtNames {
-			g.c.Exts = append(g.c.Exts, Ext{Key: "ext", Path: "a/util", Name: "util"}, Ext{Key: "ext2", Path: "b/util", Name: "util", Alias: "util2"})
+			switch rapid.IntRange(0, 2).Draw(g.rt, "extnames-kind") {
+			case 0:
+				// two packages with the same name, used from different files
+				g.c.Exts = append(g.c.Exts, Ext{Key: "ext", Path: "a/util", Name: "util"}, Ext{Key: "ext2", Path: "b/util", Name: "util", Alias: "util2"})
+			case 1:
+				// an alias that is a proper suffix of the path's last element but not the package name
+				g.c.Exts = append(g.c.Exts, Ext{Key: "ext", Path: "gen/userpb", Name: "userpb", Alias: "pb"})
+				g.w.AddFeature("ext-alias-suffix")
+			default:
+				// package name differs from the last element of its import path, no alias
+				g.c.Exts = append(g.c.Exts, Ext{Key: "ext", Path: "x/my-store", Name: "mystore"})
+				g.w.AddFeature("ext-name-differs-from-path")
+			}
 		} else {
 			g.c.Exts = append(g.c.Exts, Ext{Key: "ext", Path: "extlib", Name: "extlib"})
 		}
